@@ -88,7 +88,7 @@ func checkC38(c *Ctx, r *Report) {
 	// ---- R2
 	if ra := needFn(m, r, "C38.R2", pkgConsole, "(*authManager).requireAuth"); ra != nil {
 		n := 0
-		for _, f := range ra.AnonFuncs {
+		for _, f := range anonFuncsOf(ra) {
 			for _, call := range callsIn(f) {
 				// the call of the wrapped handler: callee is the captured `next`
 				cc := call.Common()
@@ -326,7 +326,7 @@ func checkC38(c *Ctx, r *Report) {
 				continue
 			}
 			n++
-			guardVerdict(m, r, "C38.R3", "Allow records a hit only when it admits", al, site.Call, Guard{cl(below)})
+			guardVerdict(m, r, "C38.R3", "Allow records a hit only when it admits", al, site.At, Guard{cl(below)})
 		}
 		if n == 0 {
 			r.unresolved("C38.R3", "Allow: admitting paths", "not found")
